@@ -938,10 +938,15 @@ class Index(IndexBase):
             return key
 
         if self._map is None and offset is not None: # loc_is_iloc
+            # NOTE: with an offset this index is one leaf of a hierarchy: a label outside of 0..len-1 is absent here and must not resolve to a position of a neighbouring leaf
+            size = self.__len__()
             if key.__class__ is slice:
                 if key == NULL_SLICE:
-                    return slice(offset, self.__len__() + offset)
-                return slice_to_inclusive_slice(key, offset) #type: ignore
+                    return slice(offset, size + offset)
+                positions = range(size)[slice_to_inclusive_slice(key)] #type: ignore
+                if positions.step < 0 and positions.stop + offset < 0:
+                    return slice(positions.start + offset, None, positions.step)
+                return slice(positions.start + offset, positions.stop + offset, positions.step)
 
             if key.__class__ is np.ndarray:
                 # PERF: isolate for usage of _positions
@@ -952,11 +957,23 @@ class Index(IndexBase):
                     return self._positions[key] + offset
                 if key.dtype != DTYPE_INT_DEFAULT: #type: ignore
                     key = key.astype(DTYPE_INT_DEFAULT) #type: ignore
+                valid = (key >= 0) & (key < size) #type: ignore
+                if not valid.all():
+                    if not partial_selection:
+                        raise KeyError(key[~valid][0]) #type: ignore
+                    key = key[valid] #type: ignore
                 return key + offset
 
             if isinstance(key, list):
-               return [k + offset for k in key]
+                if partial_selection:
+                    return [k + offset for k in key if 0 <= k < size]
+                for k in key:
+                    if not 0 <= k < size:
+                        raise KeyError(k)
+                return [k + offset for k in key]
             # a single element
+            if not 0 <= key < size: #type: ignore
+                raise KeyError(key)
             return key + offset # type: ignore
 
         if key_transform:
